@@ -162,8 +162,14 @@ impl DmlExecutor {
             .catalog()
             .get_relation(table_id, &tree_builder, &snapshot)?;
 
-        let row_id = relation.next_row_id();
-        relation.increment_row_id();
+        let row_id = UInt64::from(
+            self.ctx
+                .catalog()
+                .allocate_row_id(table_id, relation.next_row_id().value()),
+        );
+        while relation.next_row_id().value() <= row_id.value() {
+            relation.increment_row_id();
+        }
 
         let schema = relation.schema().clone();
         let root = relation.root();
@@ -213,9 +219,13 @@ impl DmlExecutor {
         )?;
 
         // Update relation metadata
+        let next_row_id = self
+            .ctx
+            .catalog()
+            .next_row_id_to_store(table_id, relation.next_row_id().value());
         self.ctx.catalog().update_relation(
             relation.object_id(),
-            Some(relation.next_row_id().value()),
+            Some(next_row_id),
             None,
             None,
             &tree_builder,
